@@ -193,8 +193,84 @@ def r02_5(chk, P, D):
         chk.require(n > 0 or k == '_vorbis_unpack_info', f'{k}: no failure return found')
 
 
+def r02_6(chk, P):
+    chk.rule('R02.6', 'an initialiser that cleans up on failure cleans up an initialised object: in every public *_init function of '
+             'libvorbis whose first parameter is the object to set up, each call of a release function on that object '
+             '(vorbis_dsp_clear(v) after a failed set-up) is preceded on every path by a whole-object wipe of it -- memset(obj,0,..) '
+             'in the function itself or in a helper that performs it on every one of its paths.  The object is caller memory '
+             'with arbitrary content until then ("for all orders of headerin / synthesis_init calls")')
+    import k6
+
+    def wipes_param(F, n):
+        nd = F.ex[n]
+        if nd['k'] != 'call' or nd['callee'].get('d') != 'memset' or len(nd.get('c', [])) < 2:
+            return False
+        a = F.ex[F.strip_casts(nd['c'][0])]
+        z = F.ex[F.strip_casts(nd['c'][1])]
+        return a['k'] == 'ref' and a['decl'].get('kind') == 'param' and z['k'] == 'int' and z['v'] == 0
+    wipers = k2.must_do(P, wipes_param)
+    maywipe = k2.may_do(P, wipes_param)
+    n = 0
+    for F in P.functions():
+        if not F.name.endswith('_init') or F.static or not F.params or not F.file.startswith(common.REPO + '/lib'):
+            continue
+        p0 = F.params[0]
+        if not p0['t'].rstrip().endswith('*') or 'record' not in p0:
+            continue
+        # an initialiser of the object: the object is wiped here or in a callee that receives it (vorbis_encode_init, which
+        # works on an info the caller initialised, never wipes it and is not one)
+        creates = False
+        for c in F.calls():
+            x = F.ex[c]
+            args = x.get('c', [])
+            if args:
+                first = F.ex[F.strip_casts(args[0])]
+                if first['k'] == 'ref' and first['decl'].get('id') == p0['id']:
+                    if wipes_param(F, c):
+                        creates = True
+                    G = P.get(x['callee'].get('d'), F) if x['callee'].get('d') else None
+                    if G is not None and G.name not in k6.ALL_RELEASE and P.key(G) in maywipe and G.params and \
+                            G.params[0].get('record') == p0.get('record'):
+                        creates = True
+        if not creates:
+            continue
+        for c in sorted(F.calls(), key=lambda x: F.ex[x]['loc']):
+            nd = F.ex[c]
+            d = nd['callee'].get('d')
+            if d not in k6.ALL_RELEASE or not nd.get('c'):
+                continue
+            a0 = F.ex[F.strip_casts(nd['c'][0])]
+            if not (a0['k'] == 'ref' and a0['decl'].get('id') == p0['id']):
+                continue
+
+            def wiped(q, F=F, pid=p0['id']):
+                x = F.ex[q]
+                if x['k'] != 'call':
+                    return False
+                args = x.get('c', [])
+                if not args:
+                    return False
+                first = F.ex[F.strip_casts(args[0])]
+                if not (first['k'] == 'ref' and first['decl'].get('id') == pid):
+                    return False
+                if x['callee'].get('d') == 'memset':
+                    z = F.ex[F.strip_casts(args[1])] if len(args) > 1 else None
+                    return z is not None and z['k'] == 'int' and z['v'] == 0
+                G = P.get(x['callee'].get('d'), F) if x['callee'].get('d') else None
+                return G is not None and P.key(G) in wipers
+            path = cfg.search(F, None, lambda q, c=c: q == c, wiped)
+            n += 1
+            chk.ob('R02.6', F.name, f'{d}-after-wipe#{n}', path is None, F.where(c),
+                   f'{F.s(c)} is reached only after the object was wiped' if path is None else
+                   f'{F.s(c)} can run on the caller\'s still uninitialised {p0["record"]}: a path reaches it without a wipe of the '
+                   'object (the set-up helper returns before its memset)', path=cfg.block_lines(F, path) if path else None)
+    return n
+
+
 # ---------------------------------------------------------------------------------------------------------
 def run(chk, P):
+    r02_6(chk, P)
+    chk.floor('R02.6', 1)
     D = k4dec.decode_driver(P)
     r02_1(chk, P, D)
     chk.floor('R02.1', 45)
